@@ -18,8 +18,10 @@ Oracles (a from Kepler's third law for the n passed; C, masses as passed)
            are ~1e-29 of that unit instead of 0).  Measured worst 2.4e-15 of the first scale.
   e_zero   de/dt is finite and exactly 0 where e = 0 (scalar and array calls); every returned rate is finite.
   array    array call == element-wise scalar calls: |diff| <= 1e-13 * (|value| + rate implied by the sum of absolute per-mode
-           terms).  Measured worst 3e-16.
+           terms).  Measured: bit-identical in 1200 calibration cases.
 Non-trivial: at least one body non-synchronous and e > 0.
+Generator domain: e, spin/n, obliquity are exactly 0 or >= 1e-6, 1e-6, 1e-3 (subnormal products otherwise, see C10); the
+rheologies behind C10's two exception findings get a reduced weight; repository calls use tides_common.call_repo.
 
 Cases in which the mode machinery itself raises C10's known ZeroDivisionErrors (KF-C10-zero-dissipation-q,
 KF-C10-newton-zero-frequency) return no rates; they are reported by C10 and discarded here (counted).
@@ -31,9 +33,8 @@ Sensitivity (tools/mut.py, quick tier --cases 2000; all CAUGHT)
   dual_dissipation.py   'dR_dM_2 = -1. * beta_invr * mass_1 * dU_dM_2' -> without '* mass_1'  -> energy (dual)
   single_dissipation.py '(e_term1 * dR_dM - dR_dw_1)' -> '(e_term1 * dR_dM + dR_dw_1)' (2nd)  -> momentum
   single_dissipation.py 'dspin_dt = (host_mass / moment_of_inertia) * dU_dO' -> '(1. / moment_of_inertia)' -> energy, momentum
-  quick_tides.py        "dissipation_results['host']['dUdw'],\\n            masses[1]" host/secondary dUdw swapped is an
-                        equivalent mutant (only the sum enters de/dt); instead 'masses[0],\\n            dissipation_results['host']['dUdM']'
-                        -> 'masses[1], ...' (wrong mass paired with the host's potential)     -> energy (dual)
+  quick_tides.py        'masses[0],\n            dissipation_results['host']['dUdM'],' -> 'masses[1], ...' (wrong mass paired with
+                        the host's potential in the dual call)                                -> energy (dual)
 """
 import math
 
@@ -120,6 +121,10 @@ def _call(su, j=None):
 
 
 def evaluate(case):
+    return tc.second_opinion('c11_spin_orbit', _evaluate, case)
+
+
+def _evaluate(case):
     dual = case['kind'] == 'dual'
     su = tc.Setup(case, dual=dual)
     k = su.k
@@ -229,5 +234,13 @@ def evaluate(case):
 
 
 def warm():
+    """Single-process cache warm-up (setup.sh): the mode-machinery signatures are warmed by C10; here the single/dual
+    dynamics functions with scalar and array arguments."""
+    from props.c10_mode_sum import _base_case
     for case in fixed_cases('quick'):
         evaluate(case)
+    for kind in ('single', 'dual'):
+        for as_array in (False, 'all'):
+            for rheo in ('maxwell', 'cpl', 'ctl'):
+                evaluate(_base_case(kind=kind, as_array=as_array, trunc=6, l_max=3,
+                                    body={'rheology': rheo, 'use_obl': True, 'sync': False}, pt={'e': 0.1, 'obl': [0.3, 0.2]}))
